@@ -26,6 +26,22 @@ pub struct Case {
     /// destination sizes (selectors) for the parallel mask computation
     pub dests: Vec<u8>,
     pub ff_tokens: bool,
+    /// the C tokenizer gets a `tokenize_fn` callback (canonical tokenizer: forced tokens are computed) instead of the
+    /// built-in approximate greedy function
+    #[serde(default)]
+    pub callback: bool,
+}
+
+/// `LlgTokenizeFn`: greedy tokenisation through the trie of the `TokEnv` passed as user data; like the
+/// contract demands it never writes more than `output_tokens_len` ids and returns the full count
+extern "C" fn greedy_cb(user_data: *const std::ffi::c_void, bytes: *const u8, bytes_len: usize, output_tokens: *mut u32, output_tokens_len: usize) -> usize {
+    let env = unsafe { &*(user_data as *const llguidance::toktrie::TokEnv) };
+    let b = if bytes_len == 0 { &[][..] } else { unsafe { std::slice::from_raw_parts(bytes, bytes_len) } };
+    let toks = env.tokenize_bytes(b);
+    for (i, t) in toks.iter().enumerate().take(output_tokens_len) {
+        unsafe { *output_tokens.add(i) = *t };
+    }
+    toks.len()
 }
 
 pub struct C17;
@@ -86,7 +102,7 @@ impl Drop for CMatch {
     }
 }
 
-fn c_tokenizer(vocab: &Vocab) -> Result<CTok, String> {
+fn c_tokenizer(vocab: &Vocab, callback: bool) -> Result<CTok, String> {
     let lens: Vec<u32> = vocab.tokens.iter().map(|t| t.len() as u32).collect();
     let bytes: Vec<u8> = vocab.tokens.iter().flat_map(|t| t.clone()).collect();
     let mut init: LlgTokenizerInitV2 = unsafe { std::mem::zeroed() };
@@ -95,7 +111,13 @@ fn c_tokenizer(vocab: &Vocab) -> Result<CTok, String> {
     init.tok_eos = vocab.eos[0];
     init.token_lens = lens.as_ptr();
     init.token_bytes = bytes.as_ptr();
-    init.use_approximate_greedy_tokenize_fn = true;
+    if callback {
+        // `vocab` (and with it the TokEnv) outlives every C object of the case
+        init.tokenize_fn = Some(greedy_cb);
+        init.tokenize_user_data = &vocab.env as *const llguidance::toktrie::TokEnv as *const std::ffi::c_void;
+    } else {
+        init.use_approximate_greedy_tokenize_fn = true;
+    }
     let extra: Vec<u32> = vocab.eos[1..].to_vec();
     if !extra.is_empty() {
         init.tok_eos_extra = extra.as_ptr();
@@ -143,7 +165,7 @@ impl Prop for C17 {
     }
     fn assumptions(&self) -> Vec<String> {
         vec![
-            "the C tokenizer uses the approximate greedy tokenize function (non-canonical), the Rust twin an equivalent greedy environment".into(),
+            "the C tokenizer uses either the approximate greedy tokenize function (non-canonical) or a tokenize_fn callback doing greedy tokenisation (canonical, forced tokens on); the Rust twin is an equivalent greedy environment making the same claim".into(),
             "out-of-bounds reads are detected through the poisoned 64-byte tail of heap blocks; reads landing beyond it depend on heap contents".into(),
         ]
     }
@@ -158,35 +180,39 @@ impl Prop for C17 {
                     2 => (250usize..264).prop_map(|n| { let mut v = VocabSpec::byte(); v.pad_to = n.max(257); v }),
                     1 => Just(VocabSpec::bpe(1000, false)),
                 ];
-                (Just(g), voc, steps(16), proptest::collection::vec(0u8..7, 2..9), any::<bool>())
+                (Just(g), voc, steps(16), proptest::collection::vec(0u8..7, 2..9), any::<bool>(), proptest::bool::weighted(0.4))
             })
-            .prop_map(|(g, vocab, walk, dests, ff_tokens)| Case { g, vocab, walk, dests, ff_tokens })
+            .prop_map(|(g, vocab, walk, dests, ff_tokens, callback)| Case { g, vocab, walk, dests, ff_tokens, callback })
             .boxed()
     }
 
     fn run(&self, case: &Case, ctx: &mut Ctx) -> R {
         let mut vs = case.vocab.clone();
-        vs.canonical = false;
+        // with a tokenize callback the C tokenizer counts as canonical; the Rust twin claims the same
+        vs.canonical = case.callback;
+        ctx.class(if case.callback { "tokenizer:callback(canonical)" } else { "tokenizer:approximate_greedy" });
         let vocab = match vs.build() {
             Ok(v) => v,
             Err(_) => return Ok(()),
         };
         let n = vocab.len();
         let w_exact = n.div_ceil(32);
-        let ctok = match c_tokenizer(&vocab) {
+        let ctok = match c_tokenizer(&vocab, case.callback) {
             Ok(t) => t,
             Err(e) => return ctx.fail("C17/tokenizer-rejected", || format!("llg_new_tokenizer_v2 failed: {}", e)),
         };
         let mut init: LlgConstraintInit = unsafe { std::mem::zeroed() };
         llg_constraint_init_set_defaults(&mut init, ctok.ptr);
         init.log_stderr_level = 0;
-        init.ff_tokens_ok = false;
+        let ff_ok = case.callback && case.ff_tokens;
+        init.ff_tokens_ok = ff_ok;
         let (ty, data) = tagged(&case.g);
         let gtxt = truncate_str(&case.g.text(), 300);
 
         // Rust twins, built independently of the C objects
         let slices = SlicedBiasComputer::general_slices();
-        let f = match factory_ext(&vocab, &slices, InferenceCapabilities::default(), None) {
+        let caps = InferenceCapabilities { ff_tokens: ff_ok, ..InferenceCapabilities::default() };
+        let f = match factory_ext(&vocab, &slices, caps, None) {
             Ok(f) => f,
             Err(_) => return Ok(()),
         };
